@@ -19,7 +19,29 @@ func MPCL(t *rt.Tape) (string, [][]int) {
 	if t.Choose(rt.SGen, 12) == 0 {
 		return g.large()
 	}
+	if t.Choose(rt.SGen, 30) == 0 {
+		return g.concatArgs()
+	}
 	return g.program()
+}
+
+// concatArgs produces a program whose two array arguments are concatenated and never used again:
+// in streaming mode the result shares the wires of the arguments; computed values as wide as one
+// argument follow, then the concatenation is returned.
+func (g *mgen) concatArgs() (string, [][]int) {
+	n := 1 + g.ch(4)
+	e := []int{8, 16, 8, 32}[g.ch(4)]
+	w := n * e
+	var b strings.Builder
+	fmt.Fprintf(&b, "package main\n\nfunc main(a, b [%d]uint%d) ([]uint%d, uint%d) {\n", n, e, e, w)
+	fmt.Fprintf(&b, "\tc := a + b\n")
+	fmt.Fprintf(&b, "\ts := uint%d(c[%d]) + uint%d(c[%d])\n", w, g.ch(2*n), w, g.ch(2*n))
+	fmt.Fprintf(&b, "\tt := s * s\n")
+	if g.ch(2) == 0 {
+		fmt.Fprintf(&b, "\tt = t + uint%d(c[%d])\n", w, g.ch(2*n))
+	}
+	fmt.Fprintf(&b, "\treturn c, t\n}\n")
+	return b.String(), [][]int{{8}, {8}}
 }
 
 // MPCLLarge generates a program of the family with more than 65535 live wires (see large).
@@ -309,7 +331,77 @@ func (g *mgen) boolExpr(depth int) string {
 }
 
 func (g *mgen) stmt(depth int) {
-	switch g.ch(16) {
+	switch g.ch(18) {
+	case 16: // concatenation of two arrays: the result shares its operands' wires in streaming mode;
+		// the operands are not used again, computed values of their width follow, then the result is read
+		arrs := g.arrVars()
+		ivs := g.intVars()
+		if len(arrs) == 0 || len(ivs) == 0 {
+			return
+		}
+		a := arrs[g.ch(len(arrs))]
+		var same []mvar
+		for _, x := range arrs {
+			if x.typ.bits == a.typ.bits {
+				same = append(same, x)
+			}
+		}
+		b := same[g.ch(len(same))]
+		if (a.typ.count+b.typ.count)*a.typ.bits > 256 {
+			return
+		}
+		el := mtype{kind: 0, bits: a.typ.bits}
+		cc := g.fresh("cat")
+		an, bn := a.name, b.name
+		if g.ch(3) != 0 {
+			// operands nobody uses again: two local arrays filled with computed elements
+			an, bn = g.fresh("op"), g.fresh("op")
+			for _, o := range []struct {
+				n string
+				c int
+			}{{an, a.typ.count}, {bn, b.typ.count}} {
+				g.emit("var %s [%d]%s", o.n, o.c, el)
+				for k := 0; k < o.c; k++ {
+					g.emit("%s[%d] = %s", o.n, k, g.expr(el, 1))
+				}
+			}
+		}
+		g.emit("%s := %s + %s", cc, an, bn)
+		for k := 0; k < 1+g.ch(3); k++ {
+			wide := mtype{kind: 0, bits: []int{a.typ.bits, 2 * a.typ.bits, a.typ.bits * a.typ.count, a.typ.bits * b.typ.count}[g.ch(4)]}
+			w := g.fresh("w")
+			g.emit("%s := (%s(%s) + %s(%s))", w, wide, ivs[g.ch(len(ivs))].name, wide, ivs[g.ch(len(ivs))].name)
+			if wide.bits <= 24 && g.ch(2) == 0 {
+				g.emit("%s = %s * %s", w, w, w)
+			}
+			g.vars = append(g.vars, mvar{name: w, typ: wide})
+		}
+		for r := 0; r < 1+g.ch(3); r++ {
+			e := g.fresh("e")
+			g.emit("%s := %s[%d]", e, cc, g.ch(a.typ.count+b.typ.count))
+			g.vars = append(g.vars, mvar{name: e, typ: el})
+		}
+	case 17: // two slices of one array taken through a pointer, both read at the same computed index
+		arrs := g.arrVars()
+		ivs := g.intVars()
+		if len(arrs) == 0 || len(ivs) == 0 {
+			return
+		}
+		a := arrs[g.ch(len(arrs))]
+		if a.typ.count != 4 && a.typ.count != 8 || a.name != "a" && a.name != "b" {
+			return // (a pointer to a local array or to a struct member crashes the compiler in both modes)
+		}
+		el := mtype{kind: 0, bits: a.typ.bits}
+		h := a.typ.count / 2
+		pp, q, r := g.fresh("ptr"), g.fresh("lo"), g.fresh("hi")
+		g.emit("%s := &%s", pp, a.name)
+		g.emit("%s := %s[0:%d]", q, pp, h)
+		g.emit("%s := %s[%d:%d]", r, pp, h, a.typ.count)
+		idx := ivs[g.ch(len(ivs))].name
+		x, y := g.fresh("e"), g.fresh("e")
+		g.emit("%s := %s[uint32(%s) & uint32(%d)]", x, q, idx, h-1)
+		g.emit("%s := %s[uint32(%s) & uint32(%d)]", y, r, idx, h-1)
+		g.vars = append(g.vars, mvar{name: x, typ: el}, mvar{name: y, typ: el})
 	case 15: // a copy of an array gets a constant element (directly or through a pointer); the
 		// original is read at a computed index and dropped; a computed value as wide as the whole
 		// array follows; then the copy is read
@@ -533,7 +625,7 @@ func (g *mgen) program() (string, [][]int) {
 			g.useStruct(name, fields, false)
 			params = append(params, fmt.Sprintf("%s %s", name, sn))
 		case 0: // array argument
-			ty := mtype{kind: 3, bits: []int{8, 16, 32}[g.ch(3)], count: 2 + g.ch(6)}
+			ty := mtype{kind: 3, bits: []int{8, 16, 32}[g.ch(3)], count: 2 + g.ch(7)}
 			g.vars = append(g.vars, mvar{name: name, typ: ty, ro: g.ch(2) == 0})
 			params = append(params, fmt.Sprintf("%s %s", name, ty))
 		case 1: // unsized argument, instantiated from the input size
